@@ -522,6 +522,7 @@ def parse_lines(text):
         line = raw.rstrip("\r")
         if line.strip() == "":
             continue
+        flat.append(("line",))
         m = LABEL_RE.match(line)
         if m and not line.strip().upper().startswith(("DATA",)):
             flat.append(("label", int(m.group(1))))
